@@ -108,66 +108,69 @@ Print Assumptions periodic_uses_mic.
 
 (* ... hence in every frame the observables are those of the C05 displacements x1-x0, x2-x1, x3-x2 (resp.
    x0-x1, x2-x1 at the middle atom) taken with that frame's cell on the dispatched code path *)
-Theorem periodic_dihedral_entry : forall opt periodic xyz boxes a0 a1 a2 a3 out j f B x0 x1 x2 x3,
-  dihedral_traj opt periodic xyz boxes [a0; a1; a2; a3] = Some out ->
-  nth_error xyz j = Some f -> box_at boxes j = Some B ->
-  nth_error f a0 = Some x0 -> nth_error f a1 = Some x1 -> nth_error f a2 = Some x2 -> nth_error f a3 = Some x3 ->
-  let p := dispatch opt periodic boxes in
-  nth_error out j = Some (ZG.dih_obs (path_disp p B (vsub x1 x0)) (path_disp p B (vsub x2 x1)) (path_disp p B (vsub x3 x2))).
-Proof. exact periodic_uses_mic_dihedral. Qed.
-Print Assumptions periodic_dihedral_entry.
-Theorem periodic_angle_entry : forall opt periodic xyz boxes a0 a1 a2 out j f B x0 x1 x2,
-  angle_traj opt periodic xyz boxes [a0; a1; a2] = Some out ->
-  nth_error xyz j = Some f -> box_at boxes j = Some B ->
-  nth_error f a0 = Some x0 -> nth_error f a1 = Some x1 -> nth_error f a2 = Some x2 ->
-  let p := dispatch opt periodic boxes in
-  nth_error out j = Some (ZG.ang_obs (path_disp p B (vsub x0 x1)) (path_disp p B (vsub x2 x1))).
-Proof. exact periodic_uses_mic_angle. Qed.
-Print Assumptions periodic_angle_entry.
+Theorem periodic_entry :
+  (forall opt periodic xyz boxes a0 a1 a2 a3 out j f B x0 x1 x2 x3,
+     dihedral_traj opt periodic xyz boxes [a0; a1; a2; a3] = Some out ->
+     nth_error xyz j = Some f -> box_at boxes j = Some B ->
+     nth_error f a0 = Some x0 -> nth_error f a1 = Some x1 -> nth_error f a2 = Some x2 -> nth_error f a3 = Some x3 ->
+     let p := dispatch opt periodic boxes in
+     nth_error out j = Some (ZG.dih_obs (path_disp p B (vsub x1 x0)) (path_disp p B (vsub x2 x1)) (path_disp p B (vsub x3 x2)))) /\
+  (forall opt periodic xyz boxes a0 a1 a2 out j f B x0 x1 x2,
+     angle_traj opt periodic xyz boxes [a0; a1; a2] = Some out ->
+     nth_error xyz j = Some f -> box_at boxes j = Some B ->
+     nth_error f a0 = Some x0 -> nth_error f a1 = Some x1 -> nth_error f a2 = Some x2 ->
+     let p := dispatch opt periodic boxes in
+     nth_error out j = Some (ZG.ang_obs (path_disp p B (vsub x0 x1)) (path_disp p B (vsub x2 x1)))).
+Proof. exact (conj periodic_uses_mic_dihedral periodic_uses_mic_angle). Qed.
+Print Assumptions periodic_entry.
 
-(* with C05's tric_minimal_halfwidth: the bond vectors ARE the shortest images *)
-Theorem periodic_bonds_are_minimum_images : forall p B r1 r2 r3 n1 n2 n3, tric_path p -> lower_tri_pos B ->
-  let v1 := vadd r1 (comb B n1) in let v2 := vadd r2 (comb B n2) in let v3 := vadd r3 (comb B n3) in
-  below_half_widths B v1 -> below_half_widths B v2 -> below_half_widths B v3 ->
-  ZG.dih_obs (path_disp p B r1) (path_disp p B r2) (path_disp p B r3) = ZG.dih_obs v1 v2 v3 /\
-  (forall n, norm2 v1 <= norm2 (vadd r1 (comb B n))) /\ (forall n, norm2 v2 <= norm2 (vadd r2 (comb B n))) /\
-  (forall n, norm2 v3 <= norm2 (vadd r3 (comb B n))).
-Proof. exact dihedral_of_minimum_images. Qed.
+(* with C05's tric_minimal_halfwidth: the bond vectors ARE the shortest images (dihedrals and angles) *)
+Theorem periodic_bonds_are_minimum_images : forall p B, tric_path p -> lower_tri_pos B ->
+  (forall r1 r2 r3 n1 n2 n3,
+     let v1 := vadd r1 (comb B n1) in let v2 := vadd r2 (comb B n2) in let v3 := vadd r3 (comb B n3) in
+     below_half_widths B v1 -> below_half_widths B v2 -> below_half_widths B v3 ->
+     ZG.dih_obs (path_disp p B r1) (path_disp p B r2) (path_disp p B r3) = ZG.dih_obs v1 v2 v3 /\
+     (forall n, norm2 v1 <= norm2 (vadd r1 (comb B n))) /\ (forall n, norm2 v2 <= norm2 (vadd r2 (comb B n))) /\
+     (forall n, norm2 v3 <= norm2 (vadd r3 (comb B n)))) /\
+  (forall r1 r2 n1 n2,
+     let v1 := vadd r1 (comb B n1) in let v2 := vadd r2 (comb B n2) in
+     below_half_widths B v1 -> below_half_widths B v2 ->
+     ZG.ang_obs (path_disp p B r1) (path_disp p B r2) = ZG.ang_obs v1 v2 /\
+     (forall n, norm2 v1 <= norm2 (vadd r1 (comb B n))) /\ (forall n, norm2 v2 <= norm2 (vadd r2 (comb B n)))).
+Proof.
+  intros p B Hp HB. split; [intros r1 r2 r3 n1 n2 n3; exact (dihedral_of_minimum_images p B r1 r2 r3 n1 n2 n3 Hp HB)
+                          | intros r1 r2 n1 n2; exact (angle_of_minimum_images p B r1 r2 n1 n2 Hp HB)].
+Qed.
 Print Assumptions periodic_bonds_are_minimum_images.
-Theorem periodic_angle_bonds_are_minimum_images : forall p B r1 r2 n1 n2, tric_path p -> lower_tri_pos B ->
-  let v1 := vadd r1 (comb B n1) in let v2 := vadd r2 (comb B n2) in
-  below_half_widths B v1 -> below_half_widths B v2 ->
-  ZG.ang_obs (path_disp p B r1) (path_disp p B r2) = ZG.ang_obs v1 v2 /\
-  (forall n, norm2 v1 <= norm2 (vadd r1 (comb B n))) /\ (forall n, norm2 v2 <= norm2 (vadd r2 (comb B n))).
-Proof. exact angle_of_minimum_images. Qed.
-Print Assumptions periodic_angle_bonds_are_minimum_images.
 
-(* corollary: translating every atom by its own lattice vector changes neither dihedrals nor angles *)
-Theorem lattice_shift_invariant_dihedral : forall p B x0 x1 x2 x3 t0 t1 t2 t3 n1 n2 n3, tric_path p -> lower_tri_pos B ->
-  below_half_widths B (vadd (vsub x1 x0) (comb B n1)) -> below_half_widths B (vadd (vsub x2 x1) (comb B n2)) ->
-  below_half_widths B (vadd (vsub x3 x2) (comb B n3)) ->
-  let s := fun x t => vadd x (comb B t) in
-  ZG.dih_obs (path_disp p B (vsub (s x1 t1) (s x0 t0))) (path_disp p B (vsub (s x2 t2) (s x1 t1))) (path_disp p B (vsub (s x3 t3) (s x2 t2)))
-  = ZG.dih_obs (path_disp p B (vsub x1 x0)) (path_disp p B (vsub x2 x1)) (path_disp p B (vsub x3 x2)).
-Proof. exact dihedral_lattice_shift_invariant. Qed.
-Print Assumptions lattice_shift_invariant_dihedral.
-Theorem lattice_shift_invariant_angle : forall p B x0 x1 x2 t0 t1 t2 n1 n2, tric_path p -> lower_tri_pos B ->
-  below_half_widths B (vadd (vsub x0 x1) (comb B n1)) -> below_half_widths B (vadd (vsub x2 x1) (comb B n2)) ->
-  let s := fun x t => vadd x (comb B t) in
-  ZG.ang_obs (path_disp p B (vsub (s x0 t0) (s x1 t1))) (path_disp p B (vsub (s x2 t2) (s x1 t1)))
-  = ZG.ang_obs (path_disp p B (vsub x0 x1)) (path_disp p B (vsub x2 x1)).
-Proof. exact angle_lattice_shift_invariant. Qed.
-Print Assumptions lattice_shift_invariant_angle.
-(* orthorhombic SSE kernel: minimal for every separation; shift-invariant unless a wrapped bond lies on a cell face *)
-Theorem lattice_shift_invariant_dihedral_ortho : forall B x0 x1 x2 x3 t0 t1 t2 t3, ortho_pos B ->
-  let p := POrthoSSE in
-  strict_region B (path_disp p B (vsub x1 x0)) -> strict_region B (path_disp p B (vsub x2 x1)) ->
-  strict_region B (path_disp p B (vsub x3 x2)) ->
-  let s := fun x t => vadd x (comb B t) in
-  ZG.dih_obs (path_disp p B (vsub (s x1 t1) (s x0 t0))) (path_disp p B (vsub (s x2 t2) (s x1 t1))) (path_disp p B (vsub (s x3 t3) (s x2 t2)))
-  = ZG.dih_obs (path_disp p B (vsub x1 x0)) (path_disp p B (vsub x2 x1)) (path_disp p B (vsub x3 x2)).
-Proof. exact dihedral_lattice_shift_invariant_ortho. Qed.
-Print Assumptions lattice_shift_invariant_dihedral_ortho.
+(* corollary: translating every atom by its own lattice vector changes neither dihedrals nor angles (triclinic
+   paths: bonds below the half widths; orthorhombic SSE kernel: unless a wrapped bond lies exactly on a cell face) *)
+Theorem lattice_shift_invariant : forall B,
+  (forall p x0 x1 x2 x3 t0 t1 t2 t3 n1 n2 n3, tric_path p -> lower_tri_pos B ->
+     below_half_widths B (vadd (vsub x1 x0) (comb B n1)) -> below_half_widths B (vadd (vsub x2 x1) (comb B n2)) ->
+     below_half_widths B (vadd (vsub x3 x2) (comb B n3)) ->
+     let s := fun x t => vadd x (comb B t) in
+     ZG.dih_obs (path_disp p B (vsub (s x1 t1) (s x0 t0))) (path_disp p B (vsub (s x2 t2) (s x1 t1))) (path_disp p B (vsub (s x3 t3) (s x2 t2)))
+     = ZG.dih_obs (path_disp p B (vsub x1 x0)) (path_disp p B (vsub x2 x1)) (path_disp p B (vsub x3 x2))) /\
+  (forall p x0 x1 x2 t0 t1 t2 n1 n2, tric_path p -> lower_tri_pos B ->
+     below_half_widths B (vadd (vsub x0 x1) (comb B n1)) -> below_half_widths B (vadd (vsub x2 x1) (comb B n2)) ->
+     let s := fun x t => vadd x (comb B t) in
+     ZG.ang_obs (path_disp p B (vsub (s x0 t0) (s x1 t1))) (path_disp p B (vsub (s x2 t2) (s x1 t1)))
+     = ZG.ang_obs (path_disp p B (vsub x0 x1)) (path_disp p B (vsub x2 x1))) /\
+  (forall x0 x1 x2 x3 t0 t1 t2 t3, ortho_pos B ->
+     let p := POrthoSSE in
+     strict_region B (path_disp p B (vsub x1 x0)) -> strict_region B (path_disp p B (vsub x2 x1)) ->
+     strict_region B (path_disp p B (vsub x3 x2)) ->
+     let s := fun x t => vadd x (comb B t) in
+     ZG.dih_obs (path_disp p B (vsub (s x1 t1) (s x0 t0))) (path_disp p B (vsub (s x2 t2) (s x1 t1))) (path_disp p B (vsub (s x3 t3) (s x2 t2)))
+     = ZG.dih_obs (path_disp p B (vsub x1 x0)) (path_disp p B (vsub x2 x1)) (path_disp p B (vsub x3 x2))).
+Proof.
+  intros B. split; [|split].
+  - intros p x0 x1 x2 x3 t0 t1 t2 t3 n1 n2 n3. exact (dihedral_lattice_shift_invariant p B x0 x1 x2 x3 t0 t1 t2 t3 n1 n2 n3).
+  - intros p x0 x1 x2 t0 t1 t2 n1 n2. exact (angle_lattice_shift_invariant p B x0 x1 x2 t0 t1 t2 n1 n2).
+  - intros x0 x1 x2 x3 t0 t1 t2 t3. exact (dihedral_lattice_shift_invariant_ortho B x0 x1 x2 x3 t0 t1 t2 t3).
+Qed.
+Print Assumptions lattice_shift_invariant.
 
 (* non-vacuity of the half-width hypotheses: C05's skewed, unreduced example cell *)
 Example periodic_hypotheses_satisfiable : exists p B r n,
